@@ -151,6 +151,21 @@ def make_context(sc, rep='f64', condition='clean', masked_array_mask=False,
         from photutils.segmentation import detect_sources
         clean = np.where(np.isfinite(img), img, sc['pedestal'])
         X.segm = detect_sources(clean, X.thr, 5)
+    # a small elliptical galaxy for the isophote entry
+    gy, gx = np.mgrid[0:40, 0:44].astype(float)
+    xr = (gx - 22.3) * 0.8253 + (gy - 19.7) * 0.5646
+    yr = -(gx - 22.3) * 0.5646 + (gy - 19.7) * 0.8253
+    gal = np.round(2000 * np.exp(-0.5 * (np.hypot(xr, yr / 0.7) / 6.0) ** 2)) \
+        + sc['pedestal']
+    if condition in ('nonfinite', 'all'):
+        gal[3, 4] = np.nan
+    grep = crep if crep != 'uint8' else 'f64'
+    if not np.all(np.isfinite(gal)) and grep in ('int16', 'int32', 'int64', 'bigendian_i4'):
+        grep = 'f64'
+    if grep == 'quantity':
+        grep = 'f64'      # Ellipse documents a plain 2D array
+    X.g, p = convert(gal, grep)
+    X.parents.append(p)
     X.cutout = (slice(max(0, int(stars[0][1]) - 7), int(stars[0][1]) + 8),
                 slice(max(0, int(stars[0][0]) - 7), int(stars[0][0]) + 8))
     return X
@@ -254,6 +269,13 @@ def _entries():
         X.shape, X.psf, X.model_table, model_shape=(9, 9))
     E['calc_total_error'] = lambda X: calc_total_error(
         X.d, X.e, 2.0 * (u.electron / u.Jy if X.unit is not None else 1))
+    def _ellipse(X):
+        from photutils.isophote import (Ellipse, EllipseGeometry,
+                                        build_ellipse_model)
+        iso = Ellipse(X.g, EllipseGeometry(22.0, 20.0, 6.0, 0.25, 0.5)).fit_image(
+            maxsma=12)
+        return iso, build_ellipse_model(X.g.shape, iso) if len(iso) > 6 else None
+    E['Ellipse'] = _ellipse
     E['data_properties'] = lambda X: data_properties(
         cut(X, X.d), mask=cut(X, X.m))
     return E
@@ -271,6 +293,7 @@ def entries():
 
 # entries whose documentation does not admit some representations
 NOT_ACCEPTED = {
+    'Ellipse': {'masked_nomask', 'masked_false'},   # documented: 2D ndarray
     'LocalBackground': {'quantity'},      # documented: plain ndarray
     'ApertureMask': {'quantity'},
     'aperture_photometry_nddata': {'masked_nomask', 'masked_false'},
